@@ -513,3 +513,11 @@ package diff
 //@ loop 3 step vs_has(schema1.Properties, eachProp2Name) ==> len(propDiffs) == old(len(propDiffs))
 //@ loop 3 step !vs_has(schema1.Properties, eachProp2Name) && schema2Props[eachProp2Name].Required ==> len(propDiffs) == old(len(propDiffs))+1 && propDiffs[len(propDiffs)-1].Code == AddedRequiredProperty
 //@ loop 3 step !vs_has(schema1.Properties, eachProp2Name) && !schema2Props[eachProp2Name].Required ==> len(propDiffs) == old(len(propDiffs))+1 && propDiffs[len(propDiffs)-1].Code == AddedProperty
+
+//@ func (*SpecAnalyser).analyseResponseParams
+//@ props C12 C13 C14
+//@ requires sd != nil
+//@ loop 2 step vs_has(op2Responses, code1) ==> len(sd.Diffs) == old(len(sd.Diffs))
+//@ loop 2 step !vs_has(op2Responses, code1) ==> len(sd.Diffs) == old(len(sd.Diffs))+1 && sd.Diffs[len(sd.Diffs)-1].Code == DeletedResponse && sd.Diffs[len(sd.Diffs)-1].DifferenceLocation.Response == code1 && (code1 > 0 ==> sd.Diffs[len(sd.Diffs)-1].Compatibility == Breaking)
+//@ loop 5 step vs_has(op2Response.ResponseProps.Headers, op1HeaderName) ==> len(sd.Diffs) == old(len(sd.Diffs))
+//@ loop 5 step !vs_has(op2Response.ResponseProps.Headers, op1HeaderName) ==> len(sd.Diffs) == old(len(sd.Diffs))+1 && sd.Diffs[len(sd.Diffs)-1].Code == DeletedResponseHeader && sd.Diffs[len(sd.Diffs)-1].DifferenceLocation.Response == code2 && (code2 > 0 ==> sd.Diffs[len(sd.Diffs)-1].Compatibility == Breaking)
